@@ -25,6 +25,15 @@ if order is not None:
         return found
     fp.find_all_files = ordered
 
+# the order in which a directory's entries are enumerated is the file system's business too
+listdir_order = os.environ.get("VFW_LISTDIR")
+if listdir_order in ("asc", "desc"):
+    _orig_listdir = os.listdir
+
+    def _listdir(path="."):
+        return sorted(_orig_listdir(path), reverse=listdir_order == "desc")
+    os.listdir = _listdir
+
 if __name__ == "__main__":
     sys.argv[0] = "ford"
     ford.run()
